@@ -737,7 +737,7 @@ def _expand(fi: FuncInfo, caller_names: set[str], st: ast.stmt, select: Callable
                 tval = val.elts[thread[2]] if isinstance(val, ast.Tuple) and len(val.elts) == thread[3] else ast.Name(id="?", ctx=ast.Load())
             if thread[4] is not None:
                 # test of the result against a constant (status value): decided where the returned expression is a constant
-                eq = _equals_const(tval, thread[4])
+                eq = (bool(tval.value) if isinstance(tval, ast.Constant) else None) if thread[4] == "<truthy>" else _equals_const(tval, thread[4])
                 if eq is None:
                     res.append(clone(follow_if))
                 else:
@@ -777,6 +777,13 @@ def _expand(fi: FuncInfo, caller_names: set[str], st: ast.stmt, select: Callable
                     ct = _const_test(follow_if.test, t.id)
                     if ct is not None:
                         thread = (t.id, ct[1], pos, len(cands), ct[0])
+                    else:
+                        # plain truthiness: `if x:` / `if not x:` - decided where the helper returns a literal
+                        tt, neg_ = follow_if.test, False
+                        while isinstance(tt, ast.UnaryOp) and isinstance(tt.op, ast.Not):
+                            tt, neg_ = tt.operand, not neg_
+                        if isinstance(tt, ast.Name) and tt.id == t.id:
+                            thread = (t.id, not neg_, pos, len(cands), "<truthy>")
     renamed_body = [R().visit(b) for b in body]
     if isinstance(st, ast.Return):
         # `return h(...)`: the helper's returns simply become the caller's
@@ -1187,16 +1194,20 @@ def split_conditional_returns(fi: FuncInfo) -> FuncInfo:
     return replace(fi, node=node)
 
 
-def _split_walrus_ifs(stmts: list[ast.stmt], is_helper_call: Callable[[ast.Call], bool]) -> list[ast.stmt]:
+def _split_walrus_ifs(stmts: list[ast.stmt], is_helper_call: Callable[[ast.Call], bool], is_expression_helper: Callable[[ast.Call], bool] = lambda c: True, taken: set[str] | None = None) -> list[ast.stmt]:
     """`if (x := h(..)) is None: ...` -> `x = h(..)` ; `if x is None: ...` when the walrus is what the test evaluates first (so it is
     evaluated exactly once, unconditionally, before anything else of the statement) and h is a helper that is read in place"""
     out: list[ast.stmt] = []
+    taken = taken if taken is not None else set()
     for st in stmts:
         if isinstance(st, ast.If):
             holder: list[tuple[ast.AST, str | None, int | None]] = []
 
-            def first(e: ast.AST, parent: ast.AST | None, field: str | None, index: int | None) -> ast.NamedExpr | None:
+            def first(e: ast.AST, parent: ast.AST | None, field: str | None, index: int | None) -> ast.AST | None:
                 if isinstance(e, ast.NamedExpr):
+                    holder.append((parent, field, index))  # type: ignore[arg-type]
+                    return e
+                if isinstance(e, ast.Call) and is_helper_call(e) and not is_expression_helper(e):
                     holder.append((parent, field, index))  # type: ignore[arg-type]
                     return e
                 if isinstance(e, ast.Compare):
@@ -1208,6 +1219,16 @@ def _split_walrus_ifs(stmts: list[ast.stmt], is_helper_call: Callable[[ast.Call]
                 return None
 
             w = first(st.test, None, None, None)
+            if isinstance(w, ast.Call):
+                # `if not h(..): ...` with h a multi-statement helper: bound to a temporary first (it is what the test evaluates first)
+                k = 0
+                base = "_" + (w.func.attr if isinstance(w.func, ast.Attribute) else getattr(w.func, "id", "helper")).strip("_") + "_result"
+                tmp = base
+                while tmp in taken:
+                    k += 1
+                    tmp = f"{base}{k}"
+                taken.add(tmp)
+                w = ast.copy_location(ast.NamedExpr(target=ast.Name(id=tmp, ctx=ast.Store()), value=w), w)
             if w is not None and isinstance(w.target, ast.Name) and isinstance(w.value, ast.Call) and is_helper_call(w.value):
                 parent, field, index = holder[0]
                 nm = ast.copy_location(ast.Name(id=w.target.id, ctx=ast.Load()), w)
@@ -1239,7 +1260,7 @@ def inline_helpers(fi: FuncInfo, select: Callable[[FuncInfo, ast.Call, ast.stmt]
             nonlocal changed
             out: list[ast.stmt] = []
             skip_next = False
-            stmts = _split_walrus_ifs(stmts, lambda c: (lambda h_: h_ is not None and sel(h_, c, c))(_helper_of(view, c)))  # type: ignore[arg-type]
+            stmts = _split_walrus_ifs(stmts, lambda c: (lambda h_: h_ is not None and sel(h_, c, c) and inlinable(h_.node))(_helper_of(view, c)), lambda c: (lambda h_: h_ is not None and _expression_helper(h_) is not None)(_helper_of(view, c)), names)  # type: ignore[arg-type]
             for idx, st in enumerate(stmts):
                 if skip_next:
                     skip_next = False
